@@ -440,6 +440,95 @@ func c19(r *eng.Run) {
 		}
 		runtime.GC()
 	}
+	// Second-call pass: the property's precondition is ONE earlier use of the Buffer on a document
+	// at least as deep. A fresh Buffer per input, one unmeasured call, then the measured call.
+	{
+		type bcall struct {
+			name string
+			f    func(w []byte, b *rjson.Buffer) bool
+		}
+		calls := []bcall{
+			{"Valid", func(w []byte, b *rjson.Buffer) bool { return rjson.Valid(w, b) }},
+			{"SkipValue", func(w []byte, b *rjson.Buffer) bool { _, err := rjson.SkipValue(w, b); return err == nil }},
+			{"SkipValueFast", func(w []byte, b *rjson.Buffer) bool { _, err := rjson.SkipValueFast(w, b); return err == nil }},
+			{"HandleArrayValues/decline", func(w []byte, b *rjson.Buffer) bool {
+				_, err := rjson.HandleArrayValues(w, c19Decline, b)
+				return err == nil
+			}},
+			{"HandleObjectValues/decline", func(w []byte, b *rjson.Buffer) bool {
+				_, err := rjson.HandleObjectValues(w, c19DeclineO, b)
+				return err == nil
+			}},
+		}
+		var ins [][]byte
+		for _, w := range depthSiteFamily(70) {
+			ins = append(ins, eng.Exact(w))
+		}
+		for _, d := range []int{100, 127, 128, 129, 255, 256, 257, 1000, 1024, 4096} {
+			ins = append(ins, eng.Exact([]byte(strings.Repeat("[", d)+strings.Repeat("]", d))), eng.Exact([]byte(strings.Repeat(`{"a":`, d)+"1"+strings.Repeat("}", d))))
+		}
+		for i, w := range nodes[bfsNodes:] {
+			if i%7 == 0 && len(w) < 2000 {
+				ins = append(ins, w)
+			}
+		}
+		// secondCall returns the mallocs of the measured (second) calls over the inputs
+		secondCall := func(c bcall, in [][]byte) uint64 {
+			bufs := make([]rjson.Buffer, len(in))
+			okv := make([]bool, len(in))
+			for i, w := range in {
+				okv[i] = c.f(w, &bufs[i])
+			}
+			var a, b runtime.MemStats
+			runtime.ReadMemStats(&a)
+			for i, w := range in {
+				if okv[i] {
+					c.f(w, &bufs[i])
+				}
+			}
+			runtime.ReadMemStats(&b)
+			return b.Mallocs - a.Mallocs
+		}
+		minOf := func(c bcall, in [][]byte, reps int) uint64 {
+			min := uint64(math.MaxUint64)
+			for i := 0; i < reps && min != 0; i++ {
+				if m := secondCall(c, in); m < min {
+					min = m
+				}
+			}
+			return min
+		}
+		n2 := 0
+		for _, c := range calls {
+			var bisect func(in [][]byte, out *[][]byte)
+			bisect = func(in [][]byte, out *[][]byte) {
+				if len(*out) >= 3 || minOf(c, in, 5) == 0 {
+					return
+				}
+				if len(in) == 1 {
+					*out = append(*out, in[0])
+					return
+				}
+				bisect(in[:len(in)/2], out)
+				bisect(in[len(in)/2:], out)
+			}
+			for i := 0; i < len(ins); i += 256 {
+				j := i + 256
+				if j > len(ins) {
+					j = len(ins)
+				}
+				n2 += j - i
+				var bad [][]byte
+				bisect(ins[i:j], &bad)
+				for _, w := range bad {
+					r.Violation(eng.Replay{Engine: "alloc", Entry: c.name, Sig: "allocates-on-second-call/" + c.name + "/" + shortSig(w), InputB64: w, Expected: "0 heap allocations on a successful call with a Buffer that has been used once before on this very document", Got: fmt.Sprintf("%d allocations on the second call (minimum of 5 trials, fresh Buffer each)", minOf(c, [][]byte{w}, 5)),
+						Extra: map[string]interface{}{"family": c.name + "/second-call"}})
+				}
+			}
+		}
+		measured += n2
+		r.Set("second_call_measurements", n2)
+	}
 	// After-GC pass: pools (sync.Pool) are emptied by two GC cycles; a successful call that
 	// allocates only when a pool is empty still allocates. Measured on the non-exploration nodes
 	// (documents, large inputs, float literals): GC twice, one pass over the batch, three times;
